@@ -7,10 +7,11 @@ structure MainMove (s s' : Sys) : Prop where
   plain : Plain s s'
   ex : ∀ w, s'.workers w = .exited ↔ s.workers w = .exited
   ctl : (s.rpc = .fin ∧ s' = finishRun s) ∨ (s.rpc ≠ .fin ∧ s'.rpc ≠ .halted)
+  nsb : ∀ w, s'.workers w = .notStarted → s.workers w = .notStarted
 
 theorem MainMove.same {s s' : Sys} (p : Plain s s') (hw : s'.workers = s.workers)
     (hc : s.rpc ≠ .fin ∧ s'.rpc ≠ .halted) : MainMove s s' :=
-  ⟨p, fun w => by rw [hw], Or.inr hc⟩
+  ⟨p, fun w => by rw [hw], Or.inr hc, fun w => by rw [hw]; exact id⟩
 
 theorem gReturn_move {inp : RunInput} {s : Sys} (h : TdB inp s) (job : Job) (ret : Ret) (hr : s.rpc = .gRet job ret) :
     MainMove s (gReturn s job ret) := by
@@ -21,14 +22,20 @@ theorem gReturn_move {inp : RunInput} {s : Sys} (h : TdB inp s) (job : Job) (ret
     by_cases e : w = s.nStarted
     · subst e; rw [if_pos rfl, h.ns _ (Nat.le_refl _)]; simp
     · rw [if_neg e]
+  have nb : ∀ w, (setWorker s s.nStarted .idle).workers w = .notStarted → s.workers w = .notStarted := by
+    intro w
+    simp only [setWorker]
+    by_cases e : w = s.nStarted
+    · subst e; rw [if_pos rfl]; intro x; cases x
+    · rw [if_neg e]; exact id
   cases ret with
   | startLoop k =>
     simp only [gReturn]
     split
     · exact MainMove.same (Plain.of_same rfl rfl) rfl ⟨hnf, by simp [raise]⟩
     · split
-      · exact ⟨Plain.of_same rfl rfl, nw, Or.inr ⟨hnf, by simp⟩⟩
-      · exact ⟨Plain.of_same rfl rfl, nw, Or.inr ⟨hnf, by simp⟩⟩
+      · exact ⟨Plain.of_same rfl rfl, nw, Or.inr ⟨hnf, by simp⟩, nb⟩
+      · exact ⟨Plain.of_same rfl rfl, nw, Or.inr ⟨hnf, by simp⟩, nb⟩
   | feedLoop k =>
     simp only [gReturn]
     split
@@ -100,7 +107,7 @@ theorem mainStep_move {inp : RunInput} {s s' : Sys} {perm : List Name} (h : TdB 
     split at hs
     · cases hs; exact MainMove.same (Plain.of_same rfl rfl) rfl ⟨by simp [hr], by simp⟩
     · cases hs
-  | fin => simp only [hr] at hs; cases hs; exact ⟨finishRun_plain s, fun w => Iff.rfl, Or.inl ⟨hr, rfl⟩⟩
+  | fin => simp only [hr] at hs; cases hs; exact ⟨finishRun_plain s, fun w => Iff.rfl, Or.inl ⟨hr, rfl⟩, fun w => id⟩
   | sTop _ => simp [hr] at hs
   | sWait => simp [hr] at hs
   | sExec _ => simp [hr] at hs
